@@ -94,4 +94,155 @@ package pipeline
 
 //@ func (*Batch).reset
 //@   modifies b.events, b.eventsSize, b.status, b.hasIterableEvents, b.startTime
-//@   ensures len(b.events) == 0 && b.status == BatchStatusNotReady
+//@   ensures len(b.events) == 0 && b.status == BatchStatusNotReady && b.eventsSize == 0 && !b.hasIterableEvents
+
+// ---------------------------------------------------------------------------
+// C08 / C01: Batcher.
+//
+// Batcher.mu guards the batch being filled, outSeq and shouldStop.  Under the
+// lock the current batch is strictly below its limits (it would have been sent
+// otherwise).  Batcher.seqMu guards commitSeq (cond is its condition variable).
+
+//@ monitor Batcher.mu
+//@   self b
+//@   protects batch, outSeq, shouldStop, batch.events, batch.eventsSize, batch.status, batch.hasIterableEvents, batch.seq, batch.startTime
+//@   invariant b.outSeq >= 0
+//@   invariant b.batch != nil ==> b.batch.maxSizeCount >= 0 && b.batch.maxSizeBytes >= 0
+//@   invariant b.batch != nil && b.batch.maxSizeCount != 0 ==> len(b.batch.events) < b.batch.maxSizeCount
+//@   invariant b.batch != nil && b.batch.maxSizeBytes != 0 ==> b.batch.eventsSize < b.batch.maxSizeBytes
+
+//@ monitor Batcher.seqMu
+//@   self b
+//@   protects commitSeq
+//@   cond cond
+//@   invariant b.commitSeq >= 0
+
+//@ func (*Event).IsChildParentKind
+//@   pure
+//@   ensures result == (e.kind == eventKindChildParent)
+
+// updateStatus: the exact decision table (count, bytes, age, empty).
+
+//@ func (*Batch).updateStatus
+//@   ghost age int = 0
+//@   modifies b.status
+//@   ensures len(b.events) == 0 ==> result == BatchStatusNotReady && b.status == old(b.status)
+//@   ensures len(b.events) > 0 ==> b.status == result
+//@   ensures len(b.events) > 0 && ((b.maxSizeCount != 0 && len(b.events) >= b.maxSizeCount) || (b.maxSizeBytes != 0 && b.maxSizeBytes <= b.eventsSize)) ==> result == BatchStatusMaxSizeExceeded
+//@   ensures len(b.events) > 0 && !((b.maxSizeCount != 0 && len(b.events) >= b.maxSizeCount) || (b.maxSizeBytes != 0 && b.maxSizeBytes <= b.eventsSize)) && age > b.timeout ==> result == BatchStatusTimeoutExceeded
+//@   ensures len(b.events) > 0 && !((b.maxSizeCount != 0 && len(b.events) >= b.maxSizeCount) || (b.maxSizeBytes != 0 && b.maxSizeBytes <= b.eventsSize)) && age <= b.timeout ==> result == BatchStatusNotReady
+//@   ensures result == BatchStatusNotReady || result == BatchStatusMaxSizeExceeded || result == BatchStatusTimeoutExceeded
+//@   callee Since(t) (d)
+//@     pure
+//@     set age := d
+
+//@ func (*Batch).append
+//@   requires e != nil
+//@   modifies b.hasIterableEvents, b.events, b.eventsSize, b.events[:cap(b.events)]
+//@   ensures len(b.events) == old(len(b.events)) + 1 && b.eventsSize == old(b.eventsSize) + e.Size
+//@   ensures b.events[old(len(b.events))] == e
+//@   ensures b.hasIterableEvents == (old(b.hasIterableEvents) || e.kind != eventKindChildParent)
+
+// getBatch: call with mu held; returns the current batch, strictly below its limits.
+// The channel invariant of freeBatches (only batches made by newBatch travel through
+// it: non-negative limits, at least one set) is assumed at the receive.
+
+//@ func (*Batcher).getBatch
+//@   requires held(b.mu)
+//@   requires b.batch != nil ==> b.batch.maxSizeCount >= 0 && b.batch.maxSizeBytes >= 0
+//@   requires b.batch != nil && b.batch.maxSizeCount != 0 ==> len(b.batch.events) < b.batch.maxSizeCount
+//@   requires b.batch != nil && b.batch.maxSizeBytes != 0 ==> b.batch.eventsSize < b.batch.maxSizeBytes
+//@   preserves Event
+//@   ensures held(b.mu)
+//@   ensures result == b.batch && result != nil && result.maxSizeCount >= 0 && result.maxSizeBytes >= 0
+//@   ensures b.outSeq == old(b.outSeq)
+//@   ensures result.maxSizeCount != 0 ==> len(result.events) < result.maxSizeCount
+//@   ensures result.maxSizeBytes != 0 ==> result.eventsSize < result.maxSizeBytes
+//@   callee chanrecv:freeBatches() (v)
+//@     ensures v != nil && v.maxSizeCount >= 0 && v.maxSizeBytes >= 0 && (v.maxSizeCount != 0 || v.maxSizeBytes != 0)
+
+// trySendBatchAndUnlock: called with mu held on the current batch, at most one
+// event above "strictly below the limits".  What is handed to the workers
+// (oracle on the channel send, from the property): a ready batch with at most
+// maxSizeCount events, below maxSizeBytes before its last event, carrying the
+// next sequence number.
+
+//@ func (*Batcher).trySendBatchAndUnlock
+//@   ghost lastSize int
+//@   releases b.mu
+//@   requires batch != nil && batch == b.batch && b.outSeq >= 0 && lastSize >= 0
+//@   requires batch.maxSizeCount >= 0 && batch.maxSizeBytes >= 0
+//@   requires batch.maxSizeCount != 0 ==> len(batch.events) <= batch.maxSizeCount
+//@   requires batch.maxSizeBytes != 0 ==> batch.eventsSize - lastSize < batch.maxSizeBytes
+//@   requires len(batch.events) == 0 ==> lastSize == 0
+//@   ensures !held(b.mu)
+//@   assert at "b.batch = nil" held(b.mu) && batch.seq == old(b.outSeq) && b.outSeq == old(b.outSeq) + 1
+//@   callee chansend:fullBatches(v)
+//@     requires v == batch && !held(b.mu)
+//@     requires v.status == BatchStatusMaxSizeExceeded || v.status == BatchStatusTimeoutExceeded
+//@     requires len(v.events) > 0
+//@     requires v.maxSizeCount != 0 ==> len(v.events) <= v.maxSizeCount
+//@     requires v.maxSizeBytes != 0 ==> v.eventsSize - lastSize < v.maxSizeBytes
+//@     requires v.seq == old(b.outSeq) && v.seq >= 0
+
+//@ func (*Batcher).Add
+//@   requires event != nil && event.Size >= 0
+//@   bind trySendBatchAndUnlock lastSize := event.Size
+//@   ensures !held(b.mu)
+
+//@ func (*Batcher).heartbeat
+//@   bind trySendBatchAndUnlock lastSize := 0
+//@   ensures !held(b.mu)
+//@   callee Sleep(d)
+//@     pure
+
+// commitBatch: waits for its turn (commitSeq == batch.seq), then commits every
+// event of the batch exactly once, in index order, while holding seqMu, and only
+// then lets the next batch go.
+
+//@ func (*Batcher).commitBatch
+//@   ghost ncommit int = 0
+//@   requires batch != nil && batch.seq >= 0
+//@   ensures !held(b.seqMu)
+//@   ensures ncommit == old(len(batch.events))
+//@   ensures result == old(batch.status)
+//@   loop 1 invariant held(b.seqMu) && b.commitSeq >= 0 && ncommit == 0 && batch.events == old(batch.events) && batch.seq == old(batch.seq) && batch.status == old(batch.status)
+//@   loop 2 invariant held(b.seqMu) && ncommit == rangeindex + 1 && rangeindex + 1 <= len(batch.events) && batchSeq >= 0 && b.commitSeq == batchSeq + 1 && batch.events == old(batch.events) && batch.status == old(batch.status)
+//@   callee Commit(e)
+//@     requires held(b.seqMu) && b.commitSeq == batchSeq + 1
+//@     requires ncommit == i && e == batch.events[i]
+//@     preserves Batcher, Batch
+//@     set ncommit := ncommit + 1
+//@   callee chansend:freeBatches(v)
+//@     requires v == batch && held(b.seqMu)
+//@   callee Observe(x)
+//@     pure
+//@   callee Since(t)
+//@     pure
+//@   callee Now()
+//@     pure
+//@   callee Seconds()
+//@     pure
+
+// work: a batch is committed only after its own send returned (when it has anything to send).
+
+//@ func (*Batcher).work
+//@   ghost sent bool = false
+//@   callee chanrecv:fullBatches() (v, ok)
+//@     set sent := false
+//@     ensures ok ==> v != nil && v.seq >= 0 && (v.status == BatchStatusMaxSizeExceeded || v.status == BatchStatusTimeoutExceeded)
+//@   callee OutFn(d, bt)
+//@     requires bt == batch
+//@     preserves Batcher
+//@     set sent := true
+//@     ensures bt.hasIterableEvents == old(bt.hasIterableEvents) && bt.seq == old(bt.seq)
+//@     ensures bt.status == BatchStatusMaxSizeExceeded || bt.status == BatchStatusTimeoutExceeded || bt.status == BatchStatusInDeadQueue
+//@   callee commitBatch(bt)
+//@     requires bt == batch && (bt.hasIterableEvents ==> sent)
+//@   callee MaintenanceFn(d)
+//@     preserves Batcher
+
+//@ func (*Batcher).Stop
+//@   ensures !held(b.mu)
+//@   callee Wait()
+//@     pure
